@@ -72,7 +72,7 @@ func (fc *FnCtx) mapRegionNames(T types.Type) []string {
 	mt := T.Underlying().(*types.Map)
 	n := mapName(mt)
 	out := []string{n + ".dom", n + ".size"}
-	if isObjectType(mt.Elem()) {
+	if isObjectType(mt.Elem()) && !isEmptyStruct(mt.Elem()) {
 		panic(unsupported("map with by-value struct elements"))
 	}
 	for _, lf := range cellLeaves(mt.Elem()) {
@@ -82,6 +82,7 @@ func (fc *FnCtx) mapRegionNames(T types.Type) []string {
 	ks := fc.keySort(mt)
 	fc.regDecl(n+".dom", 1, "(Array "+ks+" Bool)")
 	fc.regDecl(n+".size", 1, "Int")
+	fc.eng.noteRegionType(n+".val", mt.Elem(), ks)
 	for _, lf := range cellLeaves(mt.Elem()) {
 		fc.regDecl(n+".val"+lf.suffix, 1, "(Array "+ks+" "+leafSort(lf.kind)+")")
 	}
@@ -137,6 +138,9 @@ func (fc *FnCtx) mapVal(st *State, m Val, mt *types.Map, key Term) Val {
 	case KFunc:
 		return Val{K: KFunc, T: T, S: get("", KInt)}
 	default:
+		if isEmptyStruct(T) {
+			return Val{K: KStruct, T: T}
+		}
 		return Val{K: k, T: T, S: get("", k)}
 	}
 }
@@ -177,6 +181,9 @@ func (fc *FnCtx) mapUpdate(in *ssa.MapUpdate, st *State) {
 	mt := in.Map.Type().Underlying().(*types.Map)
 	fc.oblig("nil", "map "+fc.nameOf(in.Map), not(eq(m.S, "0")), in.Pos())
 	fc.mapFrame(m, in)
+	if fa := fieldOfLoad(in.Map); fa != nil {
+		fc.fieldHooks("mapwrite", fa, []ssa.Value{fa.X, in.Key}, in, st)
+	}
 	fc.mapStore(st, m, mt, fc.keyTerm(fc.val(in.Key), mt), fc.val(in.Value))
 }
 
@@ -224,11 +231,25 @@ func (fc *FnCtx) mapStore(st *State, m Val, mt *types.Map, key Term, v Val) {
 	case KPtr:
 		put("", KInt, v.S)
 	default:
+		if isEmptyStruct(mt.Elem()) {
+			put("", KInt, "0") // struct{}: set-like map, the value carries no information
+			return
+		}
 		put("", k, vc.coerce(v, k))
 	}
 }
 
+func isEmptyStruct(T types.Type) bool {
+	s, ok := T.Underlying().(*types.Struct)
+	return ok && s.NumFields() == 0
+}
+
 func (fc *FnCtx) mapDelete(m Val, k Val, in ssa.Instruction, st *State) {
+	if ci, ok := in.(ssa.CallInstruction); ok && len(ci.Common().Args) == 2 {
+		if fa := fieldOfLoad(ci.Common().Args[0]); fa != nil {
+			fc.fieldHooks("mapwrite", fa, []ssa.Value{fa.X, ci.Common().Args[1]}, in, st)
+		}
+	}
 	mt := m.T.Underlying().(*types.Map)
 	fc.mapRegionNames(m.T)
 	fc.mapFrame(m, in)
